@@ -141,6 +141,9 @@ def send_chain_untouched(F, R, G, rule):
 
 
 def run(F, R, tier):
+    # body readers / `&mut Request` helpers are recognised by their own contracts (reader_is_sound, inline.with_request_helpers)
+    from lib import facts as _facts
+    F = R.F = _facts.raw_view(F)
     R.explanation = (
         "Provenance, sibling-agreement and table rules on the signing routes: (R1) the signing route signs the head "
         "and body it forwards (same into_parts()/collect() results) and nothing mutates the forwarded request between "
